@@ -857,6 +857,11 @@ func mutProperty(id, level, rule string, gen func() *rapid.Generator[*Spec], foc
 		},
 		Run: func(c *Ctx) {
 			n := 0
+			if id == "C09" && c.Thorough() {
+				if !c09Exhaustive(c, judge) {
+					return
+				}
+			}
 			Batched(c, id, c.Pick(quick, thorough), time.Duration(c.Pick(90, 300))*time.Second,
 				func(t *rapid.T) *Spec { return gen().Draw(t, "program") },
 				specKey, evalVerdict(c, build),
@@ -894,4 +899,55 @@ func init() {
 	mutProperty("C11", "exploration",
 		"a well-formed base program containing bindings (value/pointer receivers, embedded and unnamed interfaces, other packages; concrete type provided by function, struct provider, value, argument, field, nested set) with one binding edited: a method dropped, receivers made pointer receivers, self binding, binding moved into a set that does not provide the concrete type, concrete type's source removed, *T bound where only T is provided (and vice versa), binding removed (only the implementing type stays provided), bound to a non-implementing interface type. Oracle: accept iff the model's binding validity holds (Go method-set rule); accepted programs are compiled and executed and every consumer of I and of C must see the same instance (C02 oracle). Non-trivial = edited binding; distinct by program hash.",
 		genC11, "", func(e *ProgEval, x expectation) bool { return strings.HasPrefix(e.Spec.Note, "C11 ") && e.Spec.Note != "C11 nobind" }, true, 400, 2500)
+}
+
+// c09Exhaustive enumerates every result-list shape of length 0-3 (1111
+// shapes) for a provider and for an injector on a fixed two-provider base
+// program, split over the shards.
+func c09Exhaustive(c *Ctx, judge func(c *Ctx, e *ProgEval, count bool) *Fail) bool {
+	var specs []*Spec
+	for shape := 0; shape < 1111; shape++ {
+		if shape%c.NShards != c.Shard {
+			continue
+		}
+		for _, target := range []string{"provider", "injector"} {
+			s := &Spec{ImportAlias: map[int]string{}, Pkgs: []Pkg{{Name: "app"}}}
+			a := addFreshStruct(s, 0, "A")
+			b := addFreshStruct(s, 0, "B")
+			pa := addItem(s, Item{Kind: "func", Name: "ProvideA", Out: Named(a)})
+			pb := addItem(s, Item{Kind: "func", Name: "ProvideB", Params: []*Type{Named(a)}, Out: Named(b)})
+			in := Injector{Name: "Inject", Out: Named(b), Cleanup: true, Err: true, Panic: true, Args: []Ref{RItem(pa), RItem(pb)}}
+			x := &mutCtx{s: s}
+			names := shapeFromNumber(shape)
+			var rs []*Type
+			for _, nm := range names {
+				rs = append(rs, resultAtom(x, nm, Named(a)))
+			}
+			if rs == nil {
+				rs = []*Type{}
+			}
+			if target == "provider" {
+				s.Items[pa].RawResults = rs
+			} else {
+				rs2 := []*Type{}
+				for _, nm := range names {
+					rs2 = append(rs2, resultAtom(x, nm, Named(b)))
+				}
+				in.RawResults = rs2
+			}
+			s.Injectors = []Injector{in}
+			s.Note = "C09 exhaustive " + target + " " + strings.Join(names, ",")
+			refreshPlan(s)
+			specs = append(specs, s)
+		}
+	}
+	es := evalVerdict(c, true)(specs)
+	for _, e := range es {
+		if f := judge(c, e, true); f != nil {
+			c.Violation(f.Kind, f.Msg, e.Spec)
+			return false
+		}
+	}
+	c.Res.Notes["exhaustive-shapes"] = "all 1111 result-list shapes of length 0-3 enumerated for a provider and for an injector"
+	return true
 }
